@@ -19,6 +19,7 @@ class Merge(object):
         self.san = []       # (item, text)
         self.problems = []  # crash / timeout / error details
         self.sets = {}
+        self.selfcheck = {}
 
     def add(self, item, r):
         st = r.get('status', 'ok')
@@ -49,6 +50,10 @@ def execute(modname, items, timeout=900, nproc=None, extra_env=None):
     m = Merge()
     if not items:
         return m
+    m.selfcheck = {}
+    for fl in sorted(set(it.get('flavour', 'plain') for it in items)):
+        if fl != 'plain':
+            m.selfcheck[fl] = runner.sanitizer_selfcheck(fl)
     res = runner.run_items(modname, items, nproc=nproc, timeout=timeout,
                            extra_env=extra_env)
     for it, r in zip(items, res):
@@ -102,10 +107,17 @@ def finish(prop, tier, level, merge, verdict, timer, rule, assumptions,
             'deciding monitor evaluated %d cases (%d distinct non-trivial); '
             'needs >= %d / %d' % (merge.evaluations, len(merge.distinct),
                                   min_evaluations, min_distinct))
+    for fl, (ok, detail) in sorted(merge.selfcheck.items()):
+        if not ok:
+            verdict.inconclusive_because(
+                'sanitizer positive control failed on %s: %s' % (fl, detail))
     cov = dict(evaluations=merge.evaluations,
                distinct_nontrivial=len(merge.distinct), rule=rule,
                samples=merge.samples[:6] or ['(no sample recorded)'],
-               counters=merge.counters, item_status=merge.status)
+               counters=merge.counters, item_status=merge.status,
+               sanitizer_positive_control={
+                   fl: dict(ok=ok, detail=d)
+                   for fl, (ok, d) in merge.selfcheck.items()})
     for k, s in merge.sets.items():
         cov['distinct_' + k] = len(s)
         cov['some_' + k] = sorted(s)[:40]
